@@ -307,16 +307,69 @@ func c18Keepers(c *fw.Ctx, ids []uint64, addrs [][]byte) {
 		as = as[:14]
 	}
 	bech := func(b []byte) string { return sdk.AccAddress(b).String() }
+	// Entities are written with SPARSE optional fields (empty / zero in a pattern that differs between
+	// neighbours): a listing that decodes into a reused value, or a reader that falls through to the
+	// neighbour, then shows the neighbour's content. Everything read back - point reads, iterations,
+	// export iterations - is compared with these constructors field by field.
+	opt := func(on bool, v string) string {
+		if on {
+			return v
+		}
+		return ""
+	}
+	optU := func(on bool, v uint64) uint64 {
+		if on {
+			return v
+		}
+		return 0
+	}
+	pos := func(id uint64) int {
+		for i, x := range ids {
+			if x == id {
+				return i
+			}
+		}
+		return 0
+	}
+	mkBlock := func(id, h uint64) wrkchaintypes.WrkChainBlock {
+		k := pos(id) + pos(h)
+		return wrkchaintypes.WrkChainBlock{Height: h, Blockhash: fmt.Sprintf("%d/%d", id, h), Parenthash: opt(k%2 == 1, fmt.Sprintf("p%d/%d", id, h)), Hash1: opt(k%3 == 0, fmt.Sprintf("h1-%d/%d", id, h)),
+			Hash2: opt(k%3 == 1, fmt.Sprintf("h2-%d/%d", id, h)), Hash3: opt(k%4 == 2, fmt.Sprintf("h3-%d/%d", id, h)), SubTime: optU(k%2 == 0, 1_700_000_000+uint64(k))}
+	}
+	mkTs := func(id, h uint64) beacontypes.BeaconTimestamp {
+		k := pos(id) + pos(h)
+		return beacontypes.BeaconTimestamp{TimestampId: h, Hash: fmt.Sprintf("%d/%d", id, h), SubmitTime: optU(k%2 == 1, 1_600_000_000+uint64(k))}
+	}
+	mkWrk := func(id uint64) wrkchaintypes.WrkChain {
+		k := pos(id)
+		return wrkchaintypes.WrkChain{WrkchainId: id, Moniker: fmt.Sprintf("w%d", id), Name: opt(k%2 == 0, fmt.Sprintf("name%d", id)), Genesis: opt(k%3 == 0, fmt.Sprintf("gen%d", id)), Type: opt(k%2 == 1, "geth"),
+			Owner: bech(as[k%len(as)]), Lastblock: id, NumBlocks: optU(k%3 == 1, uint64(k)+1), LowestHeight: optU(k%4 == 1, uint64(k)+2), RegTime: optU(k%2 == 1, 1_500_000_000+uint64(k))}
+	}
+	mkBeacon := func(id uint64) beacontypes.Beacon {
+		k := pos(id)
+		return beacontypes.Beacon{BeaconId: id, Moniker: fmt.Sprintf("b%d", id), Name: opt(k%2 == 1, fmt.Sprintf("name%d", id)), Owner: bech(as[k%len(as)]), LastTimestampId: id,
+			FirstIdInState: optU(k%3 == 0, uint64(k)+1), NumInState: optU(k%3 == 2, uint64(k)+3), RegTime: optU(k%2 == 0, 1_400_000_000+uint64(k))}
+	}
+	mkPO := func(id uint64) enttypes.EnterpriseUndPurchaseOrder {
+		k := pos(id)
+		po := enttypes.EnterpriseUndPurchaseOrder{Id: id, Purchaser: bech(as[k%len(as)]), Amount: sdk.NewCoin(lab.Denom, math.NewIntFromUint64(id>>1).AddRaw(1)), Status: enttypes.StatusRaised, RaiseTime: id,
+			CompletionTime: optU(k%3 == 1, 1_300_000_000+uint64(k))}
+		if k%2 == 1 {
+			po.Decisions = enttypes.PurchaseOrderDecisions{{Signer: bech(as[0]), Decision: enttypes.StatusAccepted, DecisionTime: uint64(k) + 5}}
+		}
+		return po
+	}
+	same := func(x, y fmt.Stringer) bool { return x.String() == y.String() }
 	// ---- write
 	for _, id := range ids {
-		a.EnterpriseKeeper.SetPurchaseOrder(ctx, enttypes.EnterpriseUndPurchaseOrder{Id: id, Purchaser: bech(as[0]), Amount: sdk.NewCoin(lab.Denom, math.NewIntFromUint64(id>>1).AddRaw(1)), Status: enttypes.StatusRaised, RaiseTime: id})
-		a.WrkchainKeeper.SetWrkChain(ctx, wrkchaintypes.WrkChain{WrkchainId: id, Moniker: fmt.Sprintf("w%d", id), Owner: bech(as[0]), Lastblock: id})
+		a.EnterpriseKeeper.SetPurchaseOrder(ctx, mkPO(id))
+		a.WrkchainKeeper.SetWrkChain(ctx, mkWrk(id))
 		a.WrkchainKeeper.SetWrkChainStorageLimit(ctx, id, id^0x5555)
-		a.BeaconKeeper.SetBeacon(ctx, beacontypes.Beacon{BeaconId: id, Moniker: fmt.Sprintf("b%d", id), Owner: bech(as[0]), LastTimestampId: id})
+		a.BeaconKeeper.SetBeacon(ctx, mkBeacon(id))
 		a.BeaconKeeper.SetBeaconStorageLimit(ctx, id, id^0xAAAA)
 		for _, h := range ids {
-			a.WrkchainKeeper.SetWrkChainBlock(ctx, id, wrkchaintypes.WrkChainBlock{Height: h, Blockhash: fmt.Sprintf("%d/%d", id, h)})
-			a.BeaconKeeper.SetBeaconTimestamp(ctx, id, beacontypes.BeaconTimestamp{TimestampId: h, Hash: fmt.Sprintf("%d/%d", id, h)})
+			a.WrkchainKeeper.SetWrkChainBlock(ctx, id, mkBlock(id, h))
+			a.BeaconKeeper.SetBeaconTimestamp(ctx, id, mkTs(id, h))
 		}
 	}
 	for i, ad := range as {
@@ -337,11 +390,11 @@ func c18Keepers(c *fw.Ctx, ids []uint64, addrs [][]byte) {
 	check := func(stage string, deleted bool) {
 		for _, id := range ids {
 			po, ok := a.EnterpriseKeeper.GetPurchaseOrder(ctx, id)
-			if !ok || po.Id != id || po.RaiseTime != id {
+			if wantPO := mkPO(id); !ok || po.Id != id || po.RaiseTime != id || !same(&po, &wantPO) {
 				c.Violate("keeper-aliasing", "purchase-order/"+stage, "purchase order %d reads back as %+v (found %v)", id, po, ok)
 			}
 			w, ok := a.WrkchainKeeper.GetWrkChain(ctx, id)
-			if !ok || w.WrkchainId != id || w.Lastblock != id {
+			if wantW := mkWrk(id); !ok || w.WrkchainId != id || w.Lastblock != id || !same(&w, &wantW) {
 				c.Violate("keeper-aliasing", "wrkchain/"+stage, "wrkchain %d reads back as %+v (found %v)", id, w, ok)
 			}
 			lim, _ := a.WrkchainKeeper.GetWrkChainStorageLimit(ctx, id)
@@ -349,7 +402,7 @@ func c18Keepers(c *fw.Ctx, ids []uint64, addrs [][]byte) {
 				c.Violate("keeper-aliasing", "wrkchain-limit/"+stage, "wrkchain %d limit reads %d, written %d", id, lim.InStateLimit, id^0x5555)
 			}
 			b, ok := a.BeaconKeeper.GetBeacon(ctx, id)
-			if !ok || b.BeaconId != id || b.LastTimestampId != id {
+			if wantB := mkBeacon(id); !ok || b.BeaconId != id || b.LastTimestampId != id || !same(&b, &wantB) {
 				c.Violate("keeper-aliasing", "beacon/"+stage, "beacon %d reads back as %+v (found %v)", id, b, ok)
 			}
 			bl, _ := a.BeaconKeeper.GetBeaconStorageLimit(ctx, id)
@@ -359,11 +412,11 @@ func c18Keepers(c *fw.Ctx, ids []uint64, addrs [][]byte) {
 			for _, h := range ids {
 				gone := deleted && id == victim && h == victim
 				wb, ok := a.WrkchainKeeper.GetWrkChainBlock(ctx, id, h)
-				if ok == gone || (!gone && wb.Blockhash != fmt.Sprintf("%d/%d", id, h)) {
-					c.Violate("keeper-aliasing", "wrkchain-block/"+stage, "block (%d,%d) reads %q found=%v (deleted=%v)", id, h, wb.Blockhash, ok, gone)
+				if wantWB := mkBlock(id, h); ok == gone || (!gone && !same(&wb, &wantWB)) {
+					c.Violate("keeper-aliasing", "wrkchain-block/"+stage, "block (%d,%d) reads %q found=%v (deleted=%v)", id, h, wb.String(), ok, gone)
 				}
 				ts, ok := a.BeaconKeeper.GetBeaconTimestampByID(ctx, id, h)
-				if !ok || ts.Hash != fmt.Sprintf("%d/%d", id, h) {
+				if wantTs := mkTs(id, h); !ok || !same(&ts, &wantTs) {
 					c.Violate("keeper-aliasing", "beacon-timestamp/"+stage, "timestamp (%d,%d) reads %q found=%v", id, h, ts.Hash, ok)
 				}
 			}
@@ -371,8 +424,34 @@ func c18Keepers(c *fw.Ctx, ids []uint64, addrs [][]byte) {
 			var hs []uint64
 			for _, wb := range a.WrkchainKeeper.GetAllWrkChainBlockHashes(ctx, id) {
 				hs = append(hs, wb.Height)
-				if wb.Blockhash != fmt.Sprintf("%d/%d", id, wb.Height) {
-					c.Violate("iteration-foreign-item", "wrkchain-block/"+stage, "iterating blocks of wrkchain %d yields %q", id, wb.Blockhash)
+				if wantWB := mkBlock(id, wb.Height); !same(&wb, &wantWB) {
+					c.Violate("iteration-foreign-item", "wrkchain-block/"+stage, "iterating blocks of wrkchain %d yields {%s}, written {%s}", id, oneLine(wb.String()), oneLine(wantWB.String()))
+					break
+				}
+			}
+			for _, ex := range a.WrkchainKeeper.GetAllWrkChainBlockHashesForGenesisExport(ctx, id) {
+				w0 := mkBlock(id, ex.He)
+				if ex.Bh != w0.Blockhash || ex.Ph != w0.Parenthash || ex.H1 != w0.Hash1 || ex.H2 != w0.Hash2 || ex.H3 != w0.Hash3 || ex.St != w0.SubTime {
+					c.Violate("iteration-foreign-item", "wrkchain-block-export/"+stage, "export iteration of wrkchain %d yields {%s} for height %d, written {%s}", id, oneLine(ex.String()), ex.He, oneLine(w0.String()))
+					break
+				}
+			}
+			var tids []uint64
+			for _, ts := range a.BeaconKeeper.GetAllBeaconTimestamps(ctx, id) {
+				tids = append(tids, ts.TimestampId)
+				if wantTs := mkTs(id, ts.TimestampId); !same(&ts, &wantTs) {
+					c.Violate("iteration-foreign-item", "beacon-timestamp/"+stage, "iterating timestamps of beacon %d yields {%s}, written {%s}", id, oneLine(ts.String()), oneLine(wantTs.String()))
+					break
+				}
+			}
+			if len(tids) != len(ids) || !sort.SliceIsSorted(tids, func(i, j int) bool { return tids[i] < tids[j] }) {
+				c.Violate("iteration-order-or-count", "beacon-timestamp/"+stage, "timestamps of beacon %d iterate as %v (want %d ascending)", id, tids, len(ids))
+			}
+			for _, ex := range a.BeaconKeeper.GetAllBeaconTimestampsForExport(ctx, id) {
+				t0 := mkTs(id, ex.Id)
+				if ex.H != t0.Hash || ex.T != t0.SubmitTime {
+					c.Violate("iteration-foreign-item", "beacon-timestamp-export/"+stage, "export iteration of beacon %d yields {%s} for id %d, written {%s}", id, oneLine(ex.String()), ex.Id, oneLine(t0.String()))
+					break
 				}
 			}
 			wantN := len(ids)
@@ -412,6 +491,28 @@ func c18Keepers(c *fw.Ctx, ids []uint64, addrs [][]byte) {
 		var pids []uint64
 		for _, po := range a.EnterpriseKeeper.GetAllPurchaseOrders(ctx) {
 			pids = append(pids, po.Id)
+			if wantPO := mkPO(po.Id); !same(&po, &wantPO) {
+				c.Violate("iteration-foreign-item", "purchase-order/"+stage, "listing purchase orders yields {%s}, written {%s}", oneLine(po.String()), oneLine(wantPO.String()))
+				break
+			}
+		}
+		var wids, bids []uint64
+		for _, w := range a.WrkchainKeeper.GetAllWrkChains(ctx) {
+			wids = append(wids, w.WrkchainId)
+			if wantW := mkWrk(w.WrkchainId); !same(&w, &wantW) {
+				c.Violate("iteration-foreign-item", "wrkchain/"+stage, "listing wrkchains yields {%s}, written {%s}", oneLine(w.String()), oneLine(wantW.String()))
+				break
+			}
+		}
+		for _, b := range a.BeaconKeeper.GetAllBeacons(ctx) {
+			bids = append(bids, b.BeaconId)
+			if wantB := mkBeacon(b.BeaconId); !same(&b, &wantB) {
+				c.Violate("iteration-foreign-item", "beacon/"+stage, "listing beacons yields {%s}, written {%s}", oneLine(b.String()), oneLine(wantB.String()))
+				break
+			}
+		}
+		if len(wids) != len(ids) || !sort.SliceIsSorted(wids, func(i, j int) bool { return wids[i] < wids[j] }) || len(bids) != len(ids) || !sort.SliceIsSorted(bids, func(i, j int) bool { return bids[i] < bids[j] }) {
+			c.Violate("iteration-order-or-count", "registrations/"+stage, "wrkchains list as %v, beacons as %v (want %d each, ascending)", wids, bids, len(ids))
 		}
 		if len(pids) != len(ids) || !sort.SliceIsSorted(pids, func(i, j int) bool { return pids[i] < pids[j] }) {
 			c.Violate("iteration-order-or-count", "purchase-order/"+stage, "purchase orders list as %v", pids)
